@@ -86,6 +86,11 @@ func profiles(prop string) []hist.Profile {
 			{Name: "seek", Ops: 120, Topics: 2, Subs: 3, POrdered: 0.15, PFilter: 0.3, PDL: 0, PRetry: 0.6,
 				Retentions: []time.Duration{0, hour, 10 * min}, Keys: []string{"", "k1"},
 				W: weights(map[string]int{"publish": 26, "pull": 24, "ack": 18, "seek-time": 12, "snapshot": 8, "seek-snapshot": 10, "job": 6, "sweep": 0, "delete-topic": 1, "stream": 3})},
+			// seeks over deliveries that were settled in every way there is: acked,
+			// acked on their last permitted attempt, dead-lettered, seeked past
+			{Name: "seek-settled-every-way", Ops: 120, Topics: 2, Subs: 3, POrdered: 0.4, PFilter: 0.1, PDL: 0.7, PRetry: 0.8,
+				Retentions: []time.Duration{0, hour}, Keys: []string{"", "k1", "k1"}, MaxAttempt: []int32{1, 2, 3},
+				W: weights(map[string]int{"publish": 26, "pull": 22, "pull-due": 12, "ack": 10, "nack": 12, "seek-time": 14, "snapshot": 3, "seek-snapshot": 4, "job": 3, "sweep": 4, "delete-topic": 0, "stream": 0})},
 		}
 	case "C14":
 		return []hist.Profile{
@@ -120,6 +125,10 @@ func runHistProperty(t *testing.T, prop string, quick, thorough int) {
 			// the lease property also covers deadline changes made on a stream,
 			// per ack id
 			hist.RunHistoryOpt(t, col, prop, p, seed, func(w *hist.World) { w.StreamExtends = true }, nil)
+			continue
+		}
+		if prop == "C13" || prop == "C05" {
+			hist.RunHistoryOpt(t, col, prop, p, seed, func(w *hist.World) { w.SeekRows = true }, nil)
 			continue
 		}
 		if prop == "C14" {
